@@ -135,8 +135,12 @@ func point(fset *token.FileSet, rel, kind string, at token.Pos) ast.Stmt {
 	id := nextID
 	nextID++
 	sites = append(sites, site{ID: id, File: rel, Line: fset.Position(at).Line, Kind: kind})
+	fn := "P"
+	if kind == "lock" {
+		fn = "L" // yield point before Lock/RLock: also calls yieldpt.LockHook
+	}
 	return &ast.ExprStmt{X: &ast.CallExpr{
-		Fun:  &ast.SelectorExpr{X: ast.NewIdent("yieldpt"), Sel: ast.NewIdent("P")},
+		Fun:  &ast.SelectorExpr{X: ast.NewIdent("yieldpt"), Sel: ast.NewIdent(fn)},
 		Args: []ast.Expr{&ast.BasicLit{Kind: token.INT, Value: strconv.Itoa(id)}},
 	}}
 }
